@@ -129,6 +129,10 @@ class _CTP(CheckTimerProvider):
 
 
 def _scratch_base() -> str:
+    # the driver gives every run a scratch directory of its own and removes it afterwards (also when a worker was killed)
+    base = os.environ.get("CFDPMON_SCRATCH")
+    if base and os.path.isdir(base):
+        return base
     return "/dev/shm" if os.path.isdir("/dev/shm") and os.access("/dev/shm", os.W_OK) else tempfile.gettempdir()
 
 
